@@ -35,6 +35,11 @@ type C11Case struct {
 	// one can then not be unlinked (they are not the oldest), they have to be
 	// truncated to zero length.
 	KeepOldest int `json:"keep_oldest,omitempty"`
+	// HeldBack: the GC cycles inside the history are NOT preceded by a flush,
+	// so some of them run with superseded locations still pending (the
+	// collector then holds relocation back for that cycle). The closure's
+	// cycles are preceded by a flush as always.
+	HeldBack bool `json:"held_back,omitempty"`
 }
 
 type c11Stats struct {
@@ -44,10 +49,11 @@ type c11Stats struct {
 	Cycles          int
 	Relocated       int
 	SkippedPrecond  bool
+	HeldBackVisit   bool
 	Background      string // "", "released", "inconclusive"
 }
 
-const c11Rule = "rapid-generated histories on the multihash primary (small files, one fixed low-use threshold 1..100 per case, every GC cycle preceded by a flush as the statement requires) followed by a generated kill phase that removes or overwrites every key living in a non-current primary file and rewrites every bucket that refers into a non-current index file (in a third of the cases the oldest such primary and/or index file is spared, so that the files behind it cannot be unlinked and have to be truncated), flush, then [primary cycle, index cycle, flush] repeated (the index cycles with the scan for unreferenced files every other time, never, or always - drawn per case); " +
+const c11Rule = "rapid-generated histories on the multihash primary (small files, one fixed low-use threshold 1..100 per case, the GC cycles inside the history preceded by a flush in two thirds of the cases and not in the others, where some cycles run with superseded locations pending and hold relocation back) followed by a generated kill phase that removes or overwrites every key living in a non-current primary file and rewrites every bucket that refers into a non-current index file (in a third of the cases the oldest such primary and/or index file is spared, so that the files behind it cannot be unlinked and have to be truncated), flush, then [primary cycle, index cycle, flush] repeated (the index cycles with the scan for unreferenced files every other time, never, or always - drawn per case); " +
 	"oracle = validity predicates: the directory becomes byte-identical across two consecutive rounds within 10+3*(records+files) rounds; at that fixed point every targeted primary file and every unreferenced targeted index file has length 0 or is gone, a dead non-empty file that is the oldest one when the first cycle visits it is unlinked and the first-file number advances past it, no non-current primary file with live records is low-use by the case's threshold; StorageSize right after a cycle <= StorageSize right before it + 2, and growth at the following flush <= outstanding work reported before that flush + 2; contents still equal the reference map; in a quarter of the cases the closure is left to the store's own periodic collectors instead (0.2 ms interval, cycle time limit none / 50 us / 500 us; verdict after >= 60 cycles of each collector, counted at their named points); an empty non-current file that is the header's first file when the store is reopened is unlinked by the next three cycles; " +
 	"non-trivial = the kill phase emptied >=2 primary files one of which was not the oldest; distinct = distinct canonical JSON of the case"
 
@@ -67,6 +73,20 @@ func genC11(t *rapid.T) C11Case {
 	c.IGCMode = weighted(t, "igcmode", []int{2, 2, 1})
 	c.Background = weighted(t, "background", []int{9, 1, 1, 1})
 	c.KeepOldest = weighted(t, "keepoldest", []int{4, 1, 2, 1})
+	c.HeldBack = weighted(t, "heldback", []int{2, 1}) == 1
+	if c.HeldBack && weighted(t, "heldbackspare", []int{1, 2}) == 1 {
+		// Make the directed part of this mode likely: spare the oldest file
+		// and use a threshold that a file with one survivor falls below.
+		c.KeepOldest |= 1
+		c.LowUse = []int{75, 85, 100}[rapid.IntRange(0, 2).Draw(t, "heldbacklowuse")]
+		c.Seq.Cfg.PrimSize = []uint32{100, 160, 200}[rapid.IntRange(0, 2).Draw(t, "heldbackprim")]
+		c.Seq.Keys = extendKeys(c.Seq.Keys, 12)
+		for k := range c.Seq.Keys {
+			c.Seq.Ops = append(c.Seq.Ops, Op{K: opPut, Key: k, VLen: 5 + k%9})
+		}
+		c.Seq.Ops = append(c.Seq.Ops, Op{K: opFlush})
+		c.KillMode = append(c.KillMode, make([]int, len(c.Seq.Keys))...)
+	}
 	return c
 }
 
@@ -180,7 +200,7 @@ func primaryUse(path string) (busy, free int64, err error) {
 func runC11(c C11Case) (SeqStats, c11Stats, *Violation) {
 	var cs c11Stats
 	pc := newPointCounter()
-	o := seqOpts{TrackGC: true, FlushBeforeGC: true, FixedLowUse: c.LowUse, Points: pc}
+	o := seqOpts{TrackGC: true, FlushBeforeGC: !c.HeldBack, FixedLowUse: c.LowUse, Points: pc}
 	o.Epilogue = func(r *seqRunner, step int) *Violation {
 		return c11Closure(r, step, c, pc, &cs, true)
 	}
@@ -236,6 +256,54 @@ func c11Closure(r *seqRunner, step int, c C11Case, pc *pointCounter, csp *c11Sta
 				}
 			}
 			delete(targetsP, spare)
+			if c.HeldBack {
+				// The spared file becomes low-use with its last record alive
+				// (nothing to truncate), the removals are flushed, and it is
+				// first visited as low-use by a cycle that holds relocation
+				// back because another superseded location is still pending.
+				type rec struct {
+					k   int
+					off uint64
+				}
+				var inSpare, elsewhere []rec
+				for k, ks := range r.c.Keys {
+					if _, present := r.model[string(ks.Digest)]; !present {
+						continue
+					}
+					if blk, found, err := s.Index().Get(ks.Digest); err == nil && found {
+						if fn := uint32(uint64(blk.Offset) / P); fn == spare {
+							inSpare = append(inSpare, rec{k, uint64(blk.Offset)})
+						} else if targetsP[fn] {
+							elsewhere = append(elsewhere, rec{k, uint64(blk.Offset)})
+						}
+					}
+				}
+				if len(inSpare) >= 2 && len(elsewhere) >= 1 {
+					last := inSpare[0]
+					for _, x := range inSpare {
+						if x.off > last.off {
+							last = x
+						}
+					}
+					for _, x := range inSpare {
+						if x.k != last.k {
+							if v := r.step(step, Op{K: opRemove, Key: x.k}); v != nil {
+								return v
+							}
+						}
+					}
+					if v := flush("held-back"); v != nil {
+						return v
+					}
+					if v := r.step(step, Op{K: opRemove, Key: elsewhere[0].k}); v != nil {
+						return v
+					}
+					if v := r.step(step, Op{K: opPGC}); v != nil { // no flush before it in this mode
+						return v
+					}
+					cs.HeldBackVisit = true
+				}
+			}
 		}
 		recordsInTargets := 0
 		for k, ks := range r.c.Keys {
@@ -592,6 +660,12 @@ func TestC11(t *testing.T) {
 		}
 		if cs.Background != "" {
 			cl = append(cl, "closure-by-periodic-collectors:"+cs.Background)
+		}
+		if c.HeldBack {
+			cl = append(cl, "history-cycles-without-flush")
+		}
+		if cs.HeldBackVisit {
+			cl = append(cl, "low-use-file-first-visited-by-a-held-back-cycle")
 		}
 		return cl
 	}
